@@ -47,10 +47,32 @@ def generate(repo):
         return cls.__module__.replace("dali.", "") + "." + cls.__name__
 
     # ---- standard gear commands ------------------------------------------------
+    def behaves(c, argsets, dt=0):
+        """fallback when the implementing functions were renamed / moved by a maintainer: the class still
+        counts as one the model mirrors if objects built from neutral arguments decode back to the same class
+        with the same text (whether the model really mirrors it is what the C01/C02 correspondence decides)"""
+        from dali.frame import ForwardFrame
+        okn = 0
+        for args in argsets:
+            try:
+                o = c(*args)
+                back = command.from_frame(ForwardFrame(len(o.frame), o.frame.as_integer), devicetype=dt)
+            except Exception:   # noqa
+                continue
+            if type(back) is not c or str(back) != str(o):
+                return False
+            okn += 1
+        return okn > 0
+
     def std_known(c):
-        return (impl(c, "__init__") == "_StandardCommand.__init__" and
+        if (impl(c, "__init__") == "_StandardCommand.__init__" and
                 impl(c, "from_frame") == "_StandardCommand.from_frame" and
-                impl(c, "__str__") == "_StandardCommand.__str__")
+                impl(c, "__str__") == "_StandardCommand.__str__"):
+            return True
+        if any(n in c.__dict__ for n in ("__init__", "from_frame", "__str__")):
+            return False        # the class itself overrides one of them: not the family's behaviour
+        return behaves(c, [(address.GearBroadcast(),), (address.GearBroadcast(), 3), (address.GearShort(5),),
+                           (address.GearShort(5), 0)], dt=c.devicetype if isinstance(c.devicetype, int) else 0)
 
     def std_rec(c):
         cv = reg.code_of(c)
@@ -101,8 +123,14 @@ def generate(repo):
 
     # ---- device commands -----------------------------------------------------------
     def dev_known(c, base):
-        return (impl(c, "__init__") == base + ".__init__" and impl(c, "from_frame") == base + ".from_frame"
-                and impl(c, "__str__") == base + ".__str__")
+        if (impl(c, "__init__") == base + ".__init__" and impl(c, "from_frame") == base + ".from_frame"
+                and impl(c, "__str__") == base + ".__str__"):
+            return True
+        if any(n in c.__dict__ for n in ("__init__", "from_frame", "__str__")):
+            return False
+        return behaves(c, [(address.DeviceBroadcast(),), (address.DeviceShort(5),),
+                           (address.DeviceBroadcast(), address.InstanceNumber(3)),
+                           (address.DeviceShort(5), address.Device())])
 
     dev_items = ["(%d, ⟨%s, %d, %s⟩)" % (op, lstr(short(c)), op, lbool(dev_known(c, "_StandardDeviceCommand")))
                  for op, c in devstd_reg if isinstance(op, int)]
@@ -116,6 +144,12 @@ def generate(repo):
         for base, k in (("_SpecialDeviceCommand", ".zero"), ("_SpecialDeviceCommandOneParam", ".one"),
                         ("_SpecialDeviceCommandTwoParam", ".two")):
             if (i, f, s) == (base + ".__init__", base + ".from_frame", base + ".__str__"):
+                return k
+        if any(n in c.__dict__ for n in ("__init__", "from_frame", "__str__")):
+            return ".custom"
+        # implementing functions renamed / merged: classify by what the constructor takes
+        for args, k in (((), ".zero"), ((0x5A,), ".one"), ((0x5A, 0xA5), ".two")):
+            if behaves(c, [args]):
                 return k
         return ".custom"
 
